@@ -499,7 +499,8 @@ static rc::Gen<Case> genCase(int tier)
             if (*range<int>(0, 1) == 0)
             {
                 Step& first = c.history.empty() ? c.last : c.history.front();
-                first.len = c.rawStep.len;
+                // ... the declared length, or the physical size (declared length + slack: the buffer keeps its size)
+                first.len = c.rawStep.len + (*range<int>(0, 1) ? c.rawSlack : 0u);
                 first.len2 = c.rawStep.len2;
                 for (int i = 0; i < 4; ++i)
                     first.strLen[i] = c.rawStep.strLen[i];
